@@ -154,6 +154,9 @@ func scenarios(c *vlib.Ctx) []*slib.Scn {
 		add("tracer", log.C20Params{Producers: [][]string{{"T:s1", "i:a"}, {"i:b", "T:s2"}}, Sched: sched, Triggers: 1, Level: "t", Buf: 2, Shutdown: -1}, b)
 		add("tracer", log.C20Params{Producers: [][]string{{"T:s1", "T:s2", "T:s3"}}, Sched: sched, Triggers: 1, Level: "t", Buf: 2, Shutdown: 2}, b)
 		add("tracer", log.C20Params{Producers: [][]string{{"T:s1", "i:a"}}, Sched: sched, Triggers: 1, Level: "i", Buf: 2, Shutdown: -1}, b)
+		// the same text and severity from two different source lines: not identical lines, never merged
+		add("call-sites", log.C20Params{Producers: [][]string{{"i:x", "i2:x", "i2:x", "i:x"}}, Sched: sched, Triggers: 1, Level: "i", Buf: 4, Shutdown: -1}, b)
+		add("call-sites", log.C20Params{Producers: [][]string{{"i2:x", "i:x"}, {"i:y"}}, Sched: sched, Triggers: 1, Level: "i", Buf: 2, Shutdown: -1}, b)
 		// a plain line and the main line of a tracer submission with the same text from the same call site must not be merged
 		add("tracer", log.C20Params{Producers: [][]string{{"N:x", "T:x", "N:x"}}, Sched: sched, Triggers: 1, Level: "t", Buf: 4, Shutdown: -1}, b)
 		add("tracer", log.C20Params{Producers: [][]string{{"T:x", "N:x"}, {"i:y"}}, Sched: sched, Triggers: 1, Level: "t", Buf: 4, Shutdown: -1}, b)
@@ -171,7 +174,7 @@ func scenarios(c *vlib.Ctx) []*slib.Scn {
 func main() {
 	vlib.Main("C20", "model_checking", func(c *vlib.Ctx) {
 		c.Rule("stateless exploration of all interleavings within a deviation bound of the real log package (source-instrumented: buffer channel, wake-up flag, forced emptying, writer select choices, 10 ms back-off timers on the virtual clock): " +
-			"1-2 producers x 1-3 lines (distinct, identical consecutive, below/at/above the level, tracer submissions) x {free-running, externally triggered writer} x concurrent level / package-level changes (incl. a package level that is dropped again) x Shutdown at every position, plus Start-log-Shutdown in one go, all 36 parallel entry points (functions, methods on a nil tracer, single lines of a real tracer) called from another package at every global level and with package levels, and a slow output with a backlog at Shutdown; buffer shrunk to 2 slots, plus the real 1024-slot buffer with 1030 lines; both default schedulers; " +
+			"1-2 producers x 1-4 lines (distinct, identical consecutive, same text from two source lines, below/at/above the level, tracer submissions) x {free-running, externally triggered writer} x concurrent level / package-level changes (incl. a package level that is dropped again) x Shutdown at every position, plus Start-log-Shutdown in one go, all 36 parallel entry points (functions, methods on a nil tracer, single lines of a real tracer) called from another package at every global level and with package levels, and a slow output with a backlog at Shutdown; buffer shrunk to 2 slots, plus the real 1024-slot buffer with 1030 lines; both default schedulers; " +
 			"distinct_nontrivial = distinct observation traces (order of deliveries and of Shutdown) per scenario")
 		c.Assume("sequential consistency; a line logged concurrently with a level change, or whose call had not returned when Shutdown was requested, may or may not be emitted")
 		slib.Run(c, scenarios(c), slib.Opts{})
